@@ -4,7 +4,7 @@ use okane_core::parse::{parse_ledger, ParseOptions};
 use okane_core::syntax::plain::LedgerEntry;
 use serde_json::json;
 
-use crate::checks::import_common::{run_import, yaml_str, CamtCase, CsvCase};
+use crate::checks::import_common::{run_import, yaml_str, CamtCase, CsvCase, VisecaCase};
 use crate::engine::{guarded, Check, Ctx, Recorder, Tier};
 use crate::gen::syntax::dump_entry;
 use crate::model::q::Q;
@@ -162,6 +162,19 @@ impl Check for C15 {
                 content = case.csv_text.clone();
                 precisions = prec;
             }
+            6 => {
+                importer = "viseca";
+                let case = VisecaCase::generate(&mut rng, &text_refs);
+                let Ok((c, s)) = case.write(&dir) else {
+                    rec.skip();
+                    return;
+                };
+                cfg = c;
+                src = s;
+                config_yaml = case.config_yaml.clone();
+                content = case.text.clone();
+                precisions = vec![];
+            }
             _ => {
                 importer = "camt053";
                 let mut case = CamtCase::generate(&mut rng, &text_refs);
@@ -298,13 +311,13 @@ impl Check for C15 {
         let feats: Vec<&str> = HOSTILE.iter().map(|(f, _)| *f).collect();
         format!(
             "Each case: a generated statement for the CSV importer (60%, all layouts of C16, payee templates, conversions, charges, configured precisions 2-4) or the ISO \
-             Camt053 importer (40%, batches, charges, references as codes, rules capturing payees from creditor name / remittance info with (?s)). 70% of the cases put \
+             Camt053 importer (30%, batches, charges, references as codes, rules capturing payees from creditor name / remittance info with (?s)). 70% of the cases put \
              one hostile text into the free-text fields - payee, note, category, party names, remittance and additional info, references - drawn \
              from: {}. Oracle: T = canonical dump of every transaction the importer built (import + to_double_entry); text = what ImportCmd::run prints; E = \
              parse_ledger(text). The text must parse, E must have exactly one transaction per built transaction and nothing else, and E[i] must equal T[i] field by \
              field (date, effective date, state, code, payee, posting states, accounts, amounts, costs, assertions, metadata of every kind) with numbers compared by \
              value; a printed number never has fewer decimals than the tree's and amounts in a commodity with a configured precision show at least that many. A \
-             statement the importer refuses with an error is counted, not judged. Viseca statements are not generated (see DESIGN.md). Non-trivial = imported \
+             statement the importer refuses with an error is counted, not judged. One case in ten is a Viseca card statement (payee text only). Non-trivial = imported \
              statement; distinct by config + statement.",
             feats.join(", ")
         )
